@@ -34,9 +34,19 @@ let c17_valid (line : string) : string =
     else if xv_merge_out_of_fuel s d then "fuel"
     else
       let v = xv_rule_vector xv_apollo_params s d in
-      match failed_rules v with
-      | [] -> "valid"
-      | l -> "invalid " ^ String.concat "," l
+      (* model against model: the literal models of selection.rs and fragment.rs against the specification's rules *)
+      let acyclic = xv_r_no_fragment_cycles d in
+      let cyc = if fc_all_ok d = acyclic then "agree" else "differ" in
+      let xing =
+        if not acyclic then "na"
+        (* same_value / by_name assume what 5.4.2 and 5.6.3 guarantee: no repeated argument or object field *)
+        else if not (xv_r_argument_unique s d && xv_r_input_field_unique s d) then "na-dup"
+        else match mx_document_ok s d, xv_merge_verdict s d with
+          | Some a, Some b -> if a = b then "agree" else "differ"
+          | _, _ -> "fuel" in
+      (match failed_rules v with
+       | [] -> "valid"
+       | l -> "invalid " ^ String.concat "," l) ^ " xing=" ^ xing ^ " cycles=" ^ cyc
 
 (* c17_known: `<mask of 0/1, one per switch of Known.xk_defects> <schema dump> <ast dump>`: the verdict of the
    specification with those known defects applied (used only to classify disagreements) *)
